@@ -28,13 +28,14 @@ DEFAULT_CFG = {
 
 
 class Scope:
-    def __init__(self, vars=(), owner=None, loops=0):
+    def __init__(self, vars=(), owner=None, loops=0, idvar=None):
         self.vars = list(vars)
         self.owner = owner  # component name whose template lexically contains the position, or None (page)
         self.loops = loops
+        self.idvar = idvar  # variable holding the owner's render id (C14 echo)
 
     def extend(self, names, loop=False):
-        return Scope(self.vars + [n for n in names if n not in self.vars], self.owner, self.loops + (1 if loop else 0))
+        return Scope(self.vars + [n for n in names if n not in self.vars], self.owner, self.loops + (1 if loop else 0), self.idvar)
 
 
 class Builder:
@@ -121,7 +122,7 @@ class Builder:
             if self.targets(comp_index):
                 choices += ["comp", "comp", "comp"]
             if cfg["provide"]:
-                choices += ["provide"]
+                choices += ["provide"] * int(cfg.get("provide_weight", 1))
         if scope.owner is not None and cfg["isfilled"]:
             choices += ["isfilled"]
         if cfg["ticks"]:
@@ -163,14 +164,22 @@ class Builder:
             if void:
                 n["void"] = True
             else:
+                if scope.idvar and self.chance(60):
+                    n["idvar"] = scope.idvar
                 n["c"] = self.nodes(scope, depth + 1, comp_index, 0, where)
             return n
         if kind == "provide":
-            key = self.pick(["pk1", "pk2"])
+            key = "pk1" if self.chance(65) else "pk2"
             kwargs = {"f1": self.expr(scope)}
             if self.chance(40):
                 kwargs["f2"] = self.expr(scope)
-            return {"t": "provide", "key": key, "kwargs": kwargs, "c": self.nodes(scope, depth + 1, comp_index, 1, where)}
+            body = self.nodes(scope, depth + 1, comp_index, 1, where)
+            if self.targets(comp_index) and self.chance(60):
+                body.insert(self.integer(0, len(body)), self.comp(scope, depth + 1, comp_index, where))
+            if self.cfg["naming"] == "unique" and self.chance(40):
+                # provided values must not become template variables: probe the key / a field name
+                body.insert(self.integer(0, len(body)), {"t": "var", "n": self.pick([key] + list(kwargs))})
+            return {"t": "provide", "key": key, "kwargs": kwargs, "c": body}
         if kind == "slot":
             return self.slot(scope, depth, comp_index, where)
         if kind == "comp":
@@ -296,14 +305,16 @@ class Builder:
             spec["data"].append([self.name("v"), ["kw", p]])
         for _ in range(self.integer(0, 2)):
             spec["data"].append([self.name("v"), ["const", self.value()]])
-        if self.cfg["inject"] and self.chance(60):
-            dflt = self.pick([None, "dfl"])
-            spec["data"].append([self.name("j"), ["inject", self.pick(["pk1", "pk2"]), self.pick(["f1", "f2"]), dflt]])
+        if self.cfg["inject"] and self.chance(int(self.cfg.get("inject_pct", 60))):
+            for _ in range(self.integer(1, 2)):
+                dflt = self.pick([None, "dfl"])
+                spec["data"].append([self.name("j"), ["inject", "pk1" if self.chance(65) else "pk2", self.pick(["f1", "f1", "f2"]), dflt]])
         if self.cfg["idecho"]:
             spec["data"].append([self.fresh("id"), ["id"]])
         if self.cfg["hooks"]:
             spec["hooks"] = {"before": self.chance(40), "after": self.chance(40)}
-        scope = Scope([v for v, s in spec["data"] if s[0] != "id"], owner=name)
+        idvars = [v for v, s in spec["data"] if s[0] == "id"]
+        scope = Scope([v for v, s in spec["data"] if s[0] != "id"], owner=name, idvar=idvars[0] if idvars else None)
         spec["tpl"] = self.nodes(scope, 0, index, 1)
         spec["_slots"] = collect_slots(spec["tpl"])
         return spec
